@@ -439,7 +439,7 @@ pub fn main(table: &[Entry]) {
         "inputs": {"graph_directed": gd, "members_and_mutations": mem, "alphabet_random": rnd, "length_sweeps": swp, "long_100_to_1500_bytes": long_inputs, "dropped_invalid_utf8": dropped},
         "traced_runs": traced, "callback_invocations": cb_invocations, "runs_with_callbacks": runs_with_cb, "callback_bumps": cb_bumps,
         "read_trace": {"read_events": read_stats.events, "attempts": read_stats.attempts, "restarts": read_stats.restarts, "max_reads_per_examined_byte": read_stats.max_ratio},
-        "partial": {"splits": pstats.splits, "stopped_mid_stream": pstats.stopped_mid_stream, "determinedness_inconclusive": pstats.inconclusive, "chunk_schedules": pstats.chunk_schedules},
+        "partial": {"splits": pstats.splits, "stopped_mid_stream": pstats.stopped_mid_stream, "determinedness_inconclusive": pstats.inconclusive, "chunk_schedules": pstats.chunk_schedules, "callback_prefix_checks": pstats.callback_prefix_checks},
         "violation_count": acc.total_violations, "violations": acc.violations, "inconclusive": inconclusive, "samples": samples,
     });
     if mode == "dump" {
